@@ -87,7 +87,7 @@ pub fn run(args: &[String]) {
     let shared = Shared::new();
     ns.par_iter().for_each(|&n| {
         let mut rep = Report::default();
-        for kind in Kind::ALL {
+        for kind in avail() {
             for dir in [FftDirection::Forward, FftDirection::Inverse] {
                 check_one::<f32>(kind, "f32", n, dir, &mut rep);
                 check_one::<f64>(kind, "f64", n, dir, &mut rep);
